@@ -2,7 +2,7 @@
 
 use std::io::{Read, Write};
 
-fn real_main() -> i32 {
+fn real_main(stack_bytes: usize) -> i32 {
     let args: Vec<String> = std::env::args().skip(1).collect();
     let mut file: Option<String> = None;
     for a in args.iter() {
@@ -49,8 +49,11 @@ fn real_main() -> i32 {
     let mut lua = minilua::Lua::new();
     lua.set_budget(2_000_000_000);
     lua.set_max_call_depth(190_000);
-    lua.set_native_stack_limit(3 << 30);
+    lua.set_native_stack_limit(stack_bytes / 4 * 3);
     lua.set_stream_stdout(true);
+    if std::env::var_os("MINILUA_COMPAT_5_2").map(|v| !v.is_empty() && v != "0").unwrap_or(false) {
+        lua.enable_compat_5_2();
+    }
     let r = lua.run(&chunk);
     lua.flush_stdout();
     match r {
@@ -65,25 +68,26 @@ fn real_main() -> i32 {
 }
 
 fn main() {
-    let child = std::thread::Builder::new().stack_size(4 << 30).spawn(|| {
-        match std::panic::catch_unwind(real_main) {
+    fn guarded(stack: usize) -> i32 {
+        match std::panic::catch_unwind(move || real_main(stack)) {
             Ok(c) => c,
             Err(_) => {
                 eprintln!("lua: internal error");
                 1
             }
         }
-    });
-    let code = match child {
-        Ok(h) => h.join().unwrap_or(1),
-        Err(_) => {
-            // could not get the big stack: run with a smaller one
-            match std::thread::Builder::new().stack_size(256 << 20).spawn(real_main) {
-                Ok(h) => h.join().unwrap_or(1),
-                Err(_) => 1,
+    }
+    // deep recursion must hit the Lua-level limits, not the native stack
+    let mut code = 1;
+    for stack in [4usize << 30, 1 << 30, 256 << 20, 64 << 20] {
+        match std::thread::Builder::new().stack_size(stack).spawn(move || guarded(stack)) {
+            Ok(h) => {
+                code = h.join().unwrap_or(1);
+                break;
             }
+            Err(_) => continue, // could not get that much stack: try less
         }
-    };
+    }
     let _ = std::io::stdout().flush();
     std::process::exit(code);
 }
